@@ -1160,7 +1160,9 @@ impl<'a> Runner<'a> {
         };
         let id = with(|w| w.new_child(ck, beh));
         let running = match self.class {
-            Class::Collection => with(|w| self.queue.iter().filter(|&&c| w.children[c as usize].completed_at.is_none()).count()),
+            // (only bounded subjects need the count; it is linear in the population)
+            Class::Collection if kind.bounded() => with(|w| self.queue.iter().filter(|&&c| w.children[c as usize].completed_at.is_none()).count()),
+            Class::Collection => 0,
             _ => self.sources.len(),
         };
         let expect_accept = !kind.bounded() || running < self.capn;
@@ -1927,6 +1929,58 @@ impl<'a> Runner<'a> {
         match op {
             Op::Push { beh, how } => self.push_child(*beh, *how),
             Op::Extend { behs } => self.extend(behs),
+            Op::PushMany { beh, n } => {
+                for _ in 0..*n {
+                    if self.dead {
+                        break;
+                    }
+                    self.push_child(*beh, PushHow::Back);
+                }
+            }
+            Op::FinishOldest { n } => {
+                if with(|w| w.frozen) {
+                    return;
+                }
+                let ids: Vec<u32> = with(|w| {
+                    w.live_children()
+                        .into_iter()
+                        .filter(|&i| {
+                            let c = &w.children[i as usize];
+                            match c.kind {
+                                CKind::Fut => !c.ready,
+                                CKind::Src => !c.closed,
+                            }
+                        })
+                        .take(*n as usize)
+                        .collect()
+                });
+                for id in ids {
+                    if self.dead {
+                        break;
+                    }
+                    with(|w| {
+                        let promise = w.src_promise;
+                        let ch = &mut w.children[id as usize];
+                        match ch.kind {
+                            CKind::Fut => {
+                                ch.ready = true;
+                                w.log(0x58, id as u64);
+                            }
+                            CKind::Src => {
+                                ch.closed = true;
+                                if ch.avail == INF {
+                                    ch.avail = 0;
+                                }
+                                if promise && ch.avail == 0 {
+                                    ch.avail = 1;
+                                }
+                                w.log(0x5a, id as u64);
+                            }
+                        }
+                    });
+                    self.wake_child(id, false);
+                }
+            }
             Op::Poll { fresh } => {
                 self.poll_once(*fresh);
             }
@@ -2319,6 +2373,7 @@ fn run_inner2(cfg: &Config, trace: &[Op]) -> RunResult {
         w.inexact_iter = cfg.inexact_iter;
         w.ordered_adapter = matches!(cfg.subject, SubjectKind::BO | SubjectKind::TBO);
         w.src_hints = cfg.src_hints;
+        w.wake_in_drop = cfg.wake_in_drop;
         w.src_promise = cfg.src_promise && cfg.src_hints;
         w.limit = cfg.cap;
         w.up.script = cfg.upstream.clone();
@@ -2328,6 +2383,17 @@ fn run_inner2(cfg: &Config, trace: &[Op]) -> RunResult {
         w.log(0x01, cfg.subject as u64);
         w.log(0x02, cfg.cap as u64);
     });
+    if let Some((n, r1)) = cfg.zst_children {
+        crate::zst::smoke(n as usize, r1 as usize, cfg.cap);
+        flags::F.with(|f| {
+            f.cur_task.set(0);
+            f.task_woken.set(false);
+            f.task_wakes_total.set(0);
+            f.task_wakes_in_poll.set(0);
+            f.unbracketed_task_wakes.set(0);
+            f.stale_task_wakes.set(0);
+        });
+    }
     // initial children
     let needs_initial = cfg.ctor == Ctor::Collect || class == Class::Join || cfg.subject == SubjectKind::MB;
     let initial: Vec<u32> = if needs_initial {
